@@ -27,6 +27,7 @@ import (
 	"seehuhn.de/go/sfnt/cmap"
 	"seehuhn.de/go/sfnt/glyf"
 	"seehuhn.de/go/sfnt/glyph"
+	"seehuhn.de/go/sfnt/mac"
 	"seehuhn.de/go/sfnt/opentype/coverage"
 	"seehuhn.de/go/sfnt/opentype/gdef"
 	"seehuhn.de/go/sfnt/opentype/gtab"
@@ -68,6 +69,11 @@ func (f *Font) Subset(glyphs []glyph.ID) *Font {
 				continue
 			}
 			c = s.SubsetCMap(c)
+			if key.PlatformID == 1 {
+				// Get() returns Macintosh subtables keyed by rune, but the
+				// binary form is keyed by Mac Roman character code.
+				c = macRomanCodes(c)
+			}
 			res.CMapTable[key] = c.Encode(key.Language)
 		}
 	}
@@ -124,6 +130,24 @@ func (s *subsetter) SubsetCMap(c cmap.Subtable) cmap.Subtable {
 	default:
 		panic(fmt.Sprintf("sfnt: unsupported cmap format %T", c))
 	}
+}
+
+// macRomanCodes converts a subtable keyed by rune into the corresponding
+// subtable keyed by Mac Roman character code.
+func macRomanCodes(c cmap.Subtable) cmap.Subtable {
+	m, ok := c.(cmap.Format4)
+	if !ok {
+		return c
+	}
+	res := cmap.Format4{}
+	for r, gid := range m {
+		code := mac.Encode(string(rune(r)))
+		if len(code) != 1 || mac.DecodeOne(code[0]) != rune(r) {
+			continue
+		}
+		res[uint16(code[0])] = gid
+	}
+	return res
 }
 
 // TODO(voss): This is incomplete.  Finish this!
